@@ -166,7 +166,8 @@ fn run_mail(plan: &Value, rec: &mut Rec) {
     let signed = guard(|| -> Result<CleartextSignedMessage, String> {
         let mut rng = SimRng::new(ju64(plan, "rng_key"), "c16", false);
         let pw = Password::from(k.password);
-        let cfg_for = |rng: &mut SimRng, key: &keys::PoolKey| -> Result<SignatureConfig, String> {
+        let hash_first = hash;
+        let cfg_for_hash = |rng: &mut SimRng, key: &keys::PoolKey, hash: pgp::crypto::hash::HashAlgorithm| -> Result<SignatureConfig, String> {
             let mut c = match key.v6 {
                 true => SignatureConfig::v6(rng, SignatureType::Text, key.secret.algorithm(), hash).map_err(|e| e.to_string())?,
                 false => SignatureConfig::v4(SignatureType::Text, key.secret.algorithm(), hash),
@@ -177,6 +178,16 @@ fn run_mail(plan: &Value, rec: &mut Rec) {
             ];
             Ok(c)
         };
+        let cfg_for = |rng: &mut SimRng, key: &keys::PoolKey| cfg_for_hash(rng, key, hash_first);
+        // the second signer of a two-signer document uses another hash algorithm every other time
+        // (the document then carries two Hash: header values)
+        let hash_second = if ju64(plan, "pick") % 2 == 0 {
+            hash_first
+        } else if hash_first == pgp::crypto::hash::HashAlgorithm::Sha512 {
+            pgp::crypto::hash::HashAlgorithm::Sha256
+        } else {
+            pgp::crypto::hash::HashAlgorithm::Sha512
+        };
         match signer {
             "new" => {
                 let c = cfg_for(&mut rng, k)?;
@@ -184,7 +195,7 @@ fn run_mail(plan: &Value, rec: &mut Rec) {
             }
             "new_many" => {
                 let c1 = cfg_for(&mut rng, k)?;
-                let c2 = cfg_for(&mut rng, k2)?;
+                let c2 = cfg_for_hash(&mut rng, k2, hash_second)?;
                 CleartextSignedMessage::new_many(&text, |t| Ok(vec![c1.sign(&*k.secret, &pw, t.as_bytes())?, c2.sign(&*k2.secret, &Password::from(k2.password), t.as_bytes())?])).map_err(|e| e.to_string())
             }
             _ => CleartextSignedMessage::sign(&mut rng, &text, &*k.secret, &pw).map_err(|e| e.to_string()),
